@@ -67,7 +67,7 @@ def build(n, edges, order=None, labels=None):
     labels = labels or list(range(n))
     for i in (order or range(n)):
         g.add_node(labels[i], element_symbol=("C", "N", "O", "H", "S", "P", "F", "B")[i % 8], atomic_number=Z[("C", "N", "O", "H", "S", "P", "F", "B")[i % 8]],
-                   partition=0, x_coord=float(i) + 0.5, chg=(i % 3) - 1, mass=10 + i, rad=1 + i % 3, orig=labels[i],
+                   partition=(i * 7) % 5, x_coord=float(i) + 0.5, chg=(i % 3) - 1, mass=10 + i, rad=1 + i % 3, orig=labels[i],
                    invariant_code=(i, 10 + i, 1 + i % 3))
     for k, (a, b) in enumerate(edges):
         g.add_edge(labels[a], labels[b], bond_type=1 + k % 4, tag=f"e{k}")
@@ -190,7 +190,7 @@ def seed_job(job):
     from tucan.graph_utils import permute_molecule
 
     n, mask, seeds = job
-    edges = G.edges_of(n, mask)
+    edges = G.edges_of(n, mask) if not isinstance(mask, list) else mask
     g = build(n, edges)
     before = snapshot(g)
     m = len(edges)
@@ -262,6 +262,10 @@ def run(tier):
         for mask in range(1 << (n * (n - 1) // 2)):
             if n < 5 or mask % (97 if tier == "quick" else 13) == 0:
                 sjobs.append((n, mask, seeds if n < 5 or tier == "quick" else seeds[::16]))
+    # molecules with two-digit labels (no exhaustive shuffle enumeration possible: real seeds only)
+    for n in (10, 11, 12, 25):
+        sjobs.append((n, [(i, i + 1) for i in range(n - 1)], seeds[::2]))
+        sjobs.append((n, [(0, i) for i in range(1, n)], seeds[1::4]))
     sexec = 0
     for job, res in pmap(seed_job, sjobs, chunksize=4):
         sexec += res["exec"]
